@@ -4,7 +4,7 @@ Open Scope N_scope.
 
 Definition request_table : list (str * str * str * str * str * bool * list str * bool * list str * list str) := [
   ((s2l "Server.parse_authn_request"), (s2l "AuthnRequest"), (s2l "authn_request"), (s2l "single_sign_on_service"), (s2l "authn_request"), true, [(s2l "AuthnRequest")], true, [(s2l "AuthnRequest")], []);
-  ((s2l "Entity.parse_logout_request"), (s2l "LogoutRequest"), (s2l "logout_request"), (s2l "single_logout_service"), (s2l "logout_request"), true, [(s2l "LogoutRequest")], true, [(s2l "LogoutRequest")], [(s2l "issue_instant_ok")]);
+  ((s2l "Entity.parse_logout_request"), (s2l "LogoutRequest"), (s2l "logout_request"), (s2l "single_logout_service"), (s2l "logout_request"), true, [(s2l "LogoutRequest")], true, [(s2l "LogoutRequest")], []);
   ((s2l "Server.parse_attribute_query"), (s2l "AttributeQuery"), (s2l "attribute_query"), (s2l "attribute_service"), (s2l "attribute_query"), true, [(s2l "AttributeQuery")], true, [(s2l "AttributeQuery")], []);
   ((s2l "Server.parse_authn_query"), (s2l "AuthnQuery"), (s2l "authn_query"), (s2l "authn_query_service"), (s2l "authn_query"), true, [(s2l "AuthnQuery")], true, [(s2l "AuthnQuery")], []);
   ((s2l "Server.parse_authz_decision_query"), (s2l "AuthzDecisionQuery"), (s2l "authz_decision_query"), (s2l "authz_service"), (s2l "authz_decision_query"), true, [(s2l "AuthzDecisionQuery")], false, [], []);
